@@ -3,9 +3,13 @@
 package main
 
 import (
+	"sync/atomic"
+	"time"
+
 	"bytes"
 	"encoding/binary"
 	"encoding/hex"
+	"encoding/json"
 	"errors"
 	"fmt"
 	"os"
@@ -64,7 +68,27 @@ func bulkOp(o jop, n uint64) (ix string, key, val []byte, del bool) {
 }
 
 type jcase struct {
-	Ops []jop `json:"ops"`
+	Ops  []jop     `json:"ops"`
+	Conc *concSpec `json:"conc,omitempty"` // a bulk reader against batch commits placed between its lookups
+}
+
+// concSpec: after the sequential history Ops, one bulk read of index "raw-a" (Fill / HasMulti over Keys, or a
+// full Iterate) during which the batches Commits[j] are committed by another goroutine when the reader has
+// completed Commits[j].Pos lookups (visits).
+type concWrite struct {
+	K   string `json:"k"`
+	V   string `json:"v,omitempty"`
+	Del bool   `json:"del,omitempty"`
+}
+type concCommit struct {
+	Pos    int         `json:"pos"`
+	Writes []concWrite `json:"writes"`
+}
+type concSpec struct {
+	Kind    string       `json:"kind"` // fill | hasmulti | iter
+	Keys    []string     `json:"keys,omitempty"`
+	Rev     bool         `json:"rev,omitempty"`
+	Commits []concCommit `json:"commits"`
 }
 
 type cbErr struct{ code int }
@@ -114,12 +138,23 @@ func funcsOf(kind string) shed.IndexFuncs {
 		}
 	}
 	return shed.IndexFuncs{
-		EncodeKey:   func(f shed.Item) ([]byte, error) { return f.Address, nil },
+		EncodeKey: func(f shed.Item) ([]byte, error) {
+			if h, _ := encodeHook.Load().(hookBox); h.f != nil {
+				h.f()
+			}
+			return f.Address, nil
+		},
 		DecodeKey:   func(k []byte) (shed.Item, error) { return shed.Item{Address: k}, nil },
 		EncodeValue: func(f shed.Item) ([]byte, error) { return f.Data, nil },
 		DecodeValue: func(kf shed.Item, v []byte) (shed.Item, error) { return shed.Item{Data: v}, nil },
 	}
 }
+
+// encodeHook, when set, runs inside every EncodeKey call of a raw index: the concurrent scenarios use it
+// to park a bulk reader between two of its lookups while another goroutine commits a batch.
+var encodeHook atomic.Value // hookBox
+
+type hookBox struct{ f func() }
 
 // itemOf builds the Item whose encoded key / value are k / v.
 func itemOf(kind string, k, v []byte) shed.Item {
@@ -935,6 +970,334 @@ func runHistory(run *hx.Run, ops []jop, oracleOn bool) {
 	run.AddCase(hx.CoqApp("Case", hx.CoqList(coqOps, "op"), hx.CoqList(coqObs, "obs")), jc, strings.Join(coqOps, ";"), nontrivial)
 }
 
+// ---------------------------------------------------------------- bulk readers against concurrent commits
+
+const concIx = "raw-a"
+
+func copyMap(m map[string][]byte) map[string][]byte {
+	c := make(map[string][]byte, len(m))
+	for k, v := range m {
+		c[k] = v
+	}
+	return c
+}
+
+// runConc: sequential set-up, then the interleaved bulk read; oracle: the result is that of the reference
+// sorted map at ONE single commit point (before all commits, or after the first j of them).
+func runConc(run *hx.Run, jc jcase) {
+	spec := jc.Conc
+	e := openEnv(false)
+	defer e.close()
+	r := newRef()
+	var preOps, preObs []string
+	for i, o := range jc.Ops {
+		ob := e.apply(o)
+		preOps = append(preOps, e.coqOp(o))
+		preObs = append(preObs, ob.coq)
+		if want, class := r.expected(o); want != "" && want != ob.cmp {
+			run.Violate(hx.Violation{Sig: class + ":differs-from-reference-map", Detail: fmt.Sprintf("set-up op %d: %s vs %s", i, ob.cmp, want), Case: jc})
+		}
+	}
+	ix := e.idx[concIx]
+	pfx := e.prefix[concIx]
+	// reference states: before the commits, after 1, 2, … of them
+	states := []map[string][]byte{copyMap(r.idx[concIx])}
+	var hung int32
+	done := 0 // commits performed
+	doCommits := func(pos int) {
+		for done < len(spec.Commits) && spec.Commits[done].Pos == pos {
+			c := spec.Commits[done]
+			fin := make(chan error, 1)
+			go func() { // the writer goroutine: one batch, committed while the reader is parked
+				b := e.db.NewBatch()
+				var err error
+				for _, w := range c.Writes {
+					if w.Del {
+						err = ix.DeleteInBatch(b, itemOf("raw", unhex(w.K), nil))
+					} else {
+						err = ix.PutInBatch(b, itemOf("raw", unhex(w.K), unhex(w.V)))
+					}
+					if err != nil {
+						break
+					}
+				}
+				if err == nil {
+					err = b.Commit()
+				}
+				fin <- err
+			}()
+			select {
+			case err := <-fin:
+				if err != nil {
+					run.Violate(hx.Violation{Sig: "unexpected-error:concurrent-commit", Detail: err.Error(), Case: jc})
+				}
+			case <-time.After(20 * time.Second):
+				atomic.StoreInt32(&hung, 1)
+			}
+			next := copyMap(states[len(states)-1])
+			for _, w := range c.Writes {
+				if w.Del {
+					delete(next, string(unhex(w.K)))
+				} else {
+					next[string(unhex(w.K))] = unhex(w.V)
+				}
+			}
+			states = append(states, next)
+			done++
+		}
+	}
+	// the reader's hook: called before each lookup (EncodeKey) / on each visit (iterate callback)
+	var paused int32
+	calls := 0
+	hook := func() {
+		if atomic.LoadInt32(&paused) == 1 { // EncodeKey calls of the writer goroutine
+			return
+		}
+		atomic.StoreInt32(&paused, 1)
+		doCommits(calls)
+		calls++
+		atomic.StoreInt32(&paused, 0)
+	}
+	items := make([]shed.Item, len(spec.Keys))
+	for i, k := range spec.Keys {
+		items[i] = itemOf("raw", unhex(k), nil)
+	}
+	// what the reference map answers in state st
+	answer := func(st map[string][]byte) string {
+		switch spec.Kind {
+		case "fill":
+			var sb strings.Builder
+			ok := true
+			for _, k := range spec.Keys {
+				v, present := st[string(unhex(k))]
+				if !present {
+					ok = false
+					break
+				}
+				fmt.Fprintf(&sb, "%x,", v)
+			}
+			return fmt.Sprintf("fill:%s ok=%v", sb.String(), ok)
+		case "hasmulti":
+			have := make([]bool, len(spec.Keys))
+			for i, k := range spec.Keys {
+				_, have[i] = st[string(unhex(k))]
+			}
+			return fmt.Sprintf("bools:%v", have)
+		}
+		var all []visit
+		for k, v := range st {
+			all = append(all, visit{[]byte(k), v})
+		}
+		sort.Slice(all, func(i, j int) bool { return (bytes.Compare(all[i].k, all[j].k) < 0) != spec.Rev })
+		var sb strings.Builder
+		for _, x := range all {
+			fmt.Fprintf(&sb, "%x=%x,", x.k, x.v)
+		}
+		return "iter:" + sb.String()
+	}
+	var got, coqCase string
+	var vals [][]byte
+	var have []bool
+	var vis []visit
+	var rerr error
+	finished := hx.WithTimeout(60*time.Second, func() {
+		switch spec.Kind {
+		case "fill":
+			encodeHook.Store(hookBox{hook})
+			rerr = ix.Fill(items)
+			encodeHook.Store(hookBox{})
+		case "hasmulti":
+			encodeHook.Store(hookBox{hook})
+			have, rerr = ix.HasMulti(items...)
+			encodeHook.Store(hookBox{})
+		default:
+			rerr = ix.Iterate(func(it shed.Item) (bool, error) {
+				hook()
+				k, v := kvOf("raw", it)
+				vis = append(vis, visit{k, v})
+				return false, nil
+			}, &shed.IterateOptions{Reverse: spec.Rev})
+		}
+	})
+	encodeHook.Store(hookBox{})
+	if !finished || atomic.LoadInt32(&hung) == 1 {
+		run.Violate(hx.Violation{Sig: "hang:concurrent-" + spec.Kind, Detail: "bulk reader or concurrent commit did not return", Case: jc})
+		return
+	}
+	// schedule of the model: thread 0 = reader (snapshot, then one lookup per key), thread 1 = writer
+	sched := []string{hx.CoqNat(0)}
+	ci := 0
+	for j := range spec.Keys {
+		for ci < done && spec.Commits[ci].Pos == j {
+			sched = append(sched, hx.CoqNat(1))
+			ci++
+		}
+		sched = append(sched, hx.CoqNat(0))
+	}
+	coqKeys := make([]string, len(spec.Keys))
+	for i, k := range spec.Keys {
+		coqKeys[i] = hx.CoqApp("ikey", hx.CoqN(uint64(pfx)), hx.CoqBytes(unhex(k)))
+	}
+	coqWss := make([]string, 0, done)
+	for _, c := range spec.Commits[:done] {
+		ws := make([]string, len(c.Writes))
+		for i, w := range c.Writes {
+			key := hx.CoqApp("ikey", hx.CoqN(uint64(pfx)), hx.CoqBytes(unhex(w.K)))
+			if w.Del {
+				ws[i] = hx.CoqApp("WDel", key)
+			} else {
+				ws[i] = hx.CoqApp("WPut", key, hx.CoqBytes(unhex(w.V)))
+			}
+		}
+		coqWss = append(coqWss, hx.CoqList(ws, "bwrite"))
+	}
+	switch spec.Kind {
+	case "fill":
+		ok := rerr == nil
+		n := len(items)
+		if rerr != nil {
+			if !errors.Is(rerr, driver.ErrNotFound) {
+				run.Violate(hx.Violation{Sig: "unexpected-error:concurrent-fill", Detail: rerr.Error(), Case: jc})
+				return
+			}
+			// items before the first missing one were filled: those whose value was set
+			n = 0
+			for n < len(items) && items[n].Data != nil {
+				n++
+			}
+		}
+		var sb strings.Builder
+		for i := 0; i < n; i++ {
+			_, v := kvOf("raw", items[i])
+			vals = append(vals, v)
+			fmt.Fprintf(&sb, "%x,", v)
+		}
+		got = fmt.Sprintf("fill:%s ok=%v", sb.String(), ok)
+		coqCase = hx.CoqApp("CaseFill", hx.CoqList(preOps, "op"), hx.CoqList(coqKeys, "bytes"), hx.CoqList(coqWss, "list bwrite"), hx.CoqList(sched, "nat"), hx.CoqBytesList(vals), hx.CoqBool(ok))
+	case "hasmulti":
+		if rerr != nil {
+			run.Violate(hx.Violation{Sig: "unexpected-error:concurrent-hasmulti", Detail: rerr.Error(), Case: jc})
+			return
+		}
+		got = fmt.Sprintf("bools:%v", have)
+		coqCase = hx.CoqApp("CaseHasMulti", hx.CoqList(preOps, "op"), hx.CoqList(coqKeys, "bytes"), hx.CoqList(coqWss, "list bwrite"), hx.CoqList(sched, "nat"), hx.CoqBoolList(have))
+	default:
+		if rerr != nil {
+			run.Violate(hx.Violation{Sig: "unexpected-error:concurrent-iterate", Detail: rerr.Error(), Case: jc})
+			return
+		}
+		var sb strings.Builder
+		for _, x := range vis {
+			fmt.Fprintf(&sb, "%x=%x,", x.k, x.v)
+		}
+		got = "iter:" + sb.String()
+		// the goleveldb iterator is a snapshot taken when it is created: in the model the iteration is the
+		// sequential operation placed BEFORE the commits
+		ops := append(append([]string{}, preOps...), hx.CoqApp("OIter", hx.CoqN(uint64(pfx)), "None", "false", hx.CoqBytes(nil), hx.CoqBool(spec.Rev), "CbNever"))
+		obs := append(append([]string{}, preObs...), hx.CoqApp("BIter", coqKV(vis), "IterNil"))
+		coqCase = hx.CoqApp("Case", hx.CoqList(ops, "op"), hx.CoqList(obs, "obs"))
+	}
+	// oracle: one single commit point explains the whole result
+	run.OracleChecked(1)
+	run.Hist("concurrent." + spec.Kind)
+	matched := -1
+	for j, st := range states {
+		if answer(st) == got {
+			matched = j
+			break
+		}
+	}
+	if matched < 0 {
+		wants := make([]string, len(states))
+		for j, st := range states {
+			wants[j] = answer(st)
+		}
+		run.Violate(hx.Violation{Sig: spec.Kind + ":concurrent-commit:result-from-no-single-committed-state",
+			Detail: fmt.Sprintf("%s interleaved with %d batch commit(s) returned %s; the reference map at the commit points says %s", spec.Kind, done, got, strings.Join(wants, " | ")),
+			Case:   jc, Impl: got, Want: wants})
+	} else {
+		run.Hist(fmt.Sprintf("concurrent.%s.state=%d/%d", spec.Kind, matched, len(states)-1))
+	}
+	cj, _ := json.Marshal(jc)
+	run.AddCase(coqCase, jc, "conc|"+string(cj), done > 0)
+}
+
+// genConc: a handful of stored keys, a bulk read over some of them (and a missing one now and then), one or
+// two batches committed between its lookups, each rewriting / deleting at least two of the keys read
+func genConc(r *hx.Rand) jcase {
+	pool := []string{"a", "ab", "b", "c", "k1", "k2", "\xff", "z"}
+	jc := jcase{Ops: []jop{{Op: "newindex", Ix: "raw-a"}, {Op: "newindex", Ix: "raw-d"}, put("raw-d", "a", "other")}}
+	var stored []string
+	for _, k := range pool {
+		if r.Chance(3, 4) {
+			stored = append(stored, k)
+			jc.Ops = append(jc.Ops, put("raw-a", k, "old-"+k))
+		}
+	}
+	if len(stored) < 2 {
+		stored = []string{"a", "b"}
+		jc.Ops = append(jc.Ops, put("raw-a", "a", "old-a"), put("raw-a", "b", "old-b"))
+	}
+	spec := &concSpec{Kind: []string{"fill", "fill", "hasmulti", "iter"}[r.Intn(4)], Rev: r.Bool()}
+	n := 2 + r.Intn(4)
+	for i := 0; i < n; i++ {
+		k := stored[r.Intn(len(stored))]
+		if spec.Kind == "hasmulti" && r.Chance(1, 4) || r.Chance(1, 12) {
+			k = pool[r.Intn(len(pool))] // possibly not stored
+		}
+		spec.Keys = append(spec.Keys, hexs([]byte(k)))
+	}
+	steps := n
+	if spec.Kind == "iter" {
+		steps = len(stored)
+	}
+	pos := 0
+	for c := 0; c < 1+r.Intn(2); c++ {
+		pos += r.Intn(steps)
+		if pos >= steps {
+			break
+		}
+		cm := concCommit{Pos: pos}
+		for _, k := range stored {
+			switch {
+			case r.Chance(1, 5):
+				cm.Writes = append(cm.Writes, concWrite{K: hexs([]byte(k)), Del: true})
+			default:
+				cm.Writes = append(cm.Writes, concWrite{K: hexs([]byte(k)), V: hexs([]byte(fmt.Sprintf("new%d-%s", c, k)))})
+			}
+		}
+		if r.Chance(1, 3) {
+			cm.Writes = append(cm.Writes, concWrite{K: hexs([]byte("added")), V: hexs([]byte("x"))})
+		}
+		spec.Commits = append(spec.Commits, cm)
+	}
+	jc.Conc = spec
+	return jc
+}
+
+// fixed concurrent cases: the witness of seeded/C19-3 (two keys, one batch rewriting both between the
+// two lookups of a Fill), the same for HasMulti (batch deleting both) and Iterate, two commits, a commit
+// before the first lookup
+func concCorpus() []jcase {
+	base := []jop{{Op: "newindex", Ix: "raw-a"}, {Op: "newindex", Ix: "raw-d"}, put("raw-a", "hash-a", "old"), put("raw-a", "hash-b", "old"), put("raw-a", "hash-c", "old"), put("raw-d", "hash-a", "other")}
+	k := func(s string) string { return hexs([]byte(s)) }
+	both := func(v string) []concWrite {
+		return []concWrite{{K: k("hash-a"), V: k(v)}, {K: k("hash-b"), V: k(v)}, {K: k("hash-c"), V: k(v)}}
+	}
+	del := []concWrite{{K: k("hash-a"), Del: true}, {K: k("hash-b"), Del: true}}
+	keys := []string{k("hash-a"), k("hash-b")}
+	keys3 := []string{k("hash-a"), k("hash-b"), k("hash-c")}
+	return []jcase{
+		{Ops: base, Conc: &concSpec{Kind: "fill", Keys: keys, Commits: []concCommit{{Pos: 1, Writes: both("new")}}}},
+		{Ops: base, Conc: &concSpec{Kind: "fill", Keys: keys3, Commits: []concCommit{{Pos: 1, Writes: both("n1")}, {Pos: 2, Writes: both("n2")}}}},
+		{Ops: base, Conc: &concSpec{Kind: "fill", Keys: keys3, Commits: []concCommit{{Pos: 0, Writes: both("n0")}, {Pos: 2, Writes: del}}}},
+		{Ops: base, Conc: &concSpec{Kind: "fill", Keys: keys3, Commits: []concCommit{{Pos: 2, Writes: del}}}},
+		{Ops: base, Conc: &concSpec{Kind: "hasmulti", Keys: keys3, Commits: []concCommit{{Pos: 1, Writes: del}}}},
+		{Ops: base, Conc: &concSpec{Kind: "iter", Commits: []concCommit{{Pos: 1, Writes: both("new")}}}},
+		{Ops: base, Conc: &concSpec{Kind: "iter", Rev: true, Commits: []concCommit{{Pos: 1, Writes: del}, {Pos: 2, Writes: both("n2")}}}},
+	}
+}
+
 // ---------------------------------------------------------------- generators
 
 var indexNames = []string{"raw-a", "bin-b", "ts-c", "raw-d"}
@@ -1269,7 +1632,7 @@ func aliasCorpus() []jop {
 func main() {
 	shed.Register("leveldb", sldb.Driver{})
 	run := hx.Start("C19", "Aurora.C19.Corr",
-		"histories over 2-4 indexes with three key encodings (raw variable-length keys incl. empty / 0x00 / 0xff runs, 8-byte big-endian ids, 8-byte timestamp ++ address) mixing put/delete/get/has/hasMulti/fill/first/last/count/countFrom, iterate with every combination of prefix, present or absent start item, skip-start, reverse and stopping/failing callbacks, batched writes with commit / re-commit / discard, batches writing the same stored or unstored key several times (put-delete, delete-put, put-put, …), LARGE batches of 4095..9000 operations over a few hundred keys of two indexes read before and after the commit / dropped by a reopen, uint64 fields, vectors, string fields, and close+reopen on disk; non-trivial = some iteration visited at least two items; distinct by operation list")
+		"(a) histories over 2-4 indexes with three key encodings (raw variable-length keys incl. empty / 0x00 / 0xff runs, 8-byte big-endian ids, 8-byte timestamp ++ address) mixing put/delete/get/has/hasMulti/fill/first/last/count/countFrom, iterate with every combination of prefix, present or absent start item, skip-start, reverse and stopping/failing callbacks, batched writes with commit / re-commit / discard, batches writing the same stored or unstored key several times (put-delete, delete-put, put-put, …), LARGE batches of 4095..9000 operations over a few hundred keys of two indexes read before and after the commit / dropped by a reopen, uint64 fields, vectors, string fields, and close+reopen on disk; non-trivial = some iteration visited at least two items; distinct by operation list; (b) bulk readers (Fill / HasMulti over 2-5 keys, full Iterate) parked between two of their lookups / visits while another goroutine commits one or two batches rewriting or deleting the keys being read; non-trivial = at least one commit fell inside the read")
 	r := run.R
 
 	if run.Replay != "" {
@@ -1277,7 +1640,11 @@ func main() {
 		if err := run.ReadReplay(&jc); err != nil {
 			panic(err)
 		}
-		runHistory(run, jc.Ops, true)
+		if jc.Conc != nil {
+			runConc(run, jc)
+		} else {
+			runHistory(run, jc.Ops, true)
+		}
 		run.Finish()
 		return
 	}
@@ -1285,6 +1652,12 @@ func main() {
 		runHistory(run, h, true)
 	}
 	runHistory(run, aliasCorpus(), false)
+	for _, jc := range concCorpus() {
+		runConc(run, jc)
+	}
+	for i := 0; i < run.N(24, 300); i++ {
+		runConc(run, genConc(r.Fork(0xc0c0+uint64(i))))
+	}
 	for _, f := range hx.CorpusFiles("C19") {
 		var jc jcase
 		run.Replay = f
